@@ -33,10 +33,14 @@ def callee_kind(name):
         return 'div'
     if re.search(r'ops::(arith::)?Neg::neg$|Neg>::neg$', n):
         return 'neg'
-    if re.search(r'Float::(min|max)$|f(32|64)::(min|max)$', n):
+    if re.search(r'Float::(min|max)$|f(32|64)>?::(min|max)$', n):
         return 'minmax'
-    if re.search(r'Float::abs$|f(32|64)::abs$', n):
+    if re.search(r'Float::abs$|f(32|64)>?::abs$', n):
         return 'same'
+    if re.search(r'(Float|f(32|64)>?)::signum$', n):
+        return 'one'            # +-1: degree 0, unchanged by scaling
+    if re.search(r'(Float|f(32|64)>?)::(is_nan|is_finite|is_infinite|is_sign_positive|is_sign_negative)$', n):
+        return None             # boolean, scale-invariant
     if re.search(r'(Zero::zero|Float::infinity|Float::neg_infinity|Float::nan|Float::max_value|Float::min_value)$', n):
         return 'poly'
     if re.search(r'One::one$', n):
@@ -49,9 +53,16 @@ def callee_kind(name):
         return 'same'
     if re.search(r'convert::Into::into$|convert::From<.*>>::from$|Into<.*>>::into$|clone::Clone::clone$|Clone>::clone$', n):
         return 'same'
-    if re.search(r'(NumCast::from|ToPrimitive::to_f(32|64)|Float::(sqrt|powi|powf|ln|exp|round|floor|ceil|trunc|recip))$|f(32|64)::(sqrt|powi|round|floor|ceil)$', n):
+    if re.search(r'(NumCast::from|ToPrimitive::to_f(32|64)|Float::(sqrt|powi|powf|ln|exp|round|floor|ceil|trunc|recip))$|f(32|64)>?::(sqrt|powi|round|floor|ceil)$', n):
         return 'nonlinear'
+    if re.search(r'<impl f(32|64)>::\w+$|num_traits::(float::)?Float::\w+$', n) and not REPR_PRED_NAME.search(n):
+        # any other inherent / Float method on a floating-point value has no degree rule: fail closed when it is applied to a
+        # quantity that has a degree (seed s95 hid an absolute-vs-relative bound behind f64::abs / f64::max, which had none)
+        return 'unknown-float'
     return None
+
+
+REPR_PRED_NAME = re.compile(r'::(is_normal|is_subnormal|classify|integer_decode|to_bits)$')
 
 
 # degrees of scalar float parameters of local helpers, inferred from the arguments at their call sites (fixpoint in check_degrees)
@@ -125,6 +136,10 @@ def degree(v):
             return 2
         if kind == 'nonlinear':
             raise DegreeError('non-homogeneous float operation %s' % short(x[1]))
+        if kind == 'unknown-float':
+            if any(a not in (NA, POLY) for a in args):
+                raise DegreeError('float operation %s has no degree rule (applied to a quantity of degree %s)' % (short(x[1]), [a for a in args if a not in (NA, POLY)][0]))
+            return NA
     if k == 'op':
         if x[1] in ('add', 'sub'):
             return unify(degree(x[2]), degree(x[3]), 'arithmetic on different degrees in %s' % show(noepoch(x))[:80])
@@ -367,4 +382,13 @@ def check_degrees(ctx, rep, rule='R-degree'):
             hit = bool(r2.violations)
         rep.ob('positive-control', 'absolute-tolerance', hit, 'R-degree does not flag the absolute tolerance in the positive-control crate',
                reason='floor')
+        hit2 = False
+        b = fx.body('linear_filter_bound')
+        if b is not None:
+            ps = sym.Explorer(fx, b, Purity(fx)).explore()
+            r2 = type(rep)('ctl')
+            check_body(r2, 'ctl', b, ps, {'sites': 0, 'cmp': 0, 'coord': 0})
+            hit2 = bool(r2.violations)
+        rep.ob('positive-control', 'linear-filter-bound', hit2, 'R-degree does not flag |det| > c * max|coordinate difference| (inherent f64 abs / max) '
+               'in the positive-control crate', reason='floor')
     return stats
